@@ -150,6 +150,9 @@ def check_blake2_mac(ctx, P, mod):
 
 
 def check_blake2_object(ctx, P, mod):
+    if not getattr(ctx, "_legacy_b2_shapes", False):
+        ctx._legacy_b2_shapes = True
+        ctx.guard("shape-eval", "legacy blake2 keys", lambda: hashctx.check_legacy_blake2_keys_shapes(ctx, P))
     """the legacy Blake2b / Blake2s object around its hashing context: constructors start un-finalised, the inherent reset
     returns to the state of new() on every path, the one-shot helper feeds the whole input and finalises into the caller's
     buffer, the reported MAC size is the context's digest size in bytes"""
